@@ -498,6 +498,16 @@ func c10SubstCode128(r *fw.Rec) {
 	default:
 		text, force = c10Text(rng, 1+rng.Intn(20), "Ulcdd"), 0
 	}
+	long := rng.Intn(6) == 0
+	if long {
+		// more than 103 symbol characters: the position weights of the mod-103 sum pass the modulus
+		// (longer than the library's writer emits; the symbology has no such limit)
+		if rng.Bool() {
+			text, force = c10Text(rng, 103+rng.Intn(25), "Uld"), 'B'
+		} else {
+			text, force = odDigits(rng, 2*(103+rng.Intn(20))), 'C'
+		}
+	}
 	vals, ok := onedref.Code128Values([]byte(text), force)
 	if !ok {
 		r.Inconclusive("reference encoder refused " + odQuote(text))
@@ -507,11 +517,22 @@ func c10SubstCode128(r *fw.Rec) {
 	scale, height, quiet := 1+rng.Intn(2), 1+rng.Intn(3), 10+rng.Intn(6)
 	cfg := fmt.Sprintf("quiet %d modules, %d px per module, %d rows", quiet, scale, height)
 	res, err := odDecode(rd, odRender(onedref.Code128Pattern(full), quiet, quiet, scale, height), nil)
+	controlFailed := ""
 	if err != nil || res.GetText() != text {
-		r.Inconclusive(fmt.Sprintf("control: Code 128 reader does not read the reference symbol %v of %s (%s): %v", full, odQuote(text), cfg, err))
-		return
+		// not this property's business by itself (C03 reads conforming symbols); the substitutions are
+		// tried all the same, and the case ends inconclusive only if none of them is misread
+		controlFailed = fmt.Sprintf("control: Code 128 reader does not read the reference symbol %v of %s (%s): %v", full, odQuote(text), cfg, err)
+	} else {
+		r.Tally("code128_reference_symbols_read")
+		if long {
+			r.Tally("code128_reference_symbols_read_with_more_than_103_characters")
+		}
 	}
-	r.Tally("code128_reference_symbols_read")
+	defer func() {
+		if controlFailed != "" {
+			r.Inconclusive(controlFailed)
+		}
+	}()
 	for pos := 0; pos < len(full); pos++ {
 		lo, hi := 0, 102
 		if pos == 0 {
@@ -519,6 +540,15 @@ func c10SubstCode128(r *fw.Rec) {
 		}
 		for v := lo; v <= hi; v++ {
 			if v == full[pos] {
+				continue
+			}
+			if long && pos > 0 && rng.Intn(12) != 0 { // long symbols: a sample of the replacement values at every position
+				continue
+			}
+			if pos > 0 && pos%103 == 0 && pos < len(full)-1 {
+				// the weight of character 103 (206, ...) is 0 modulo 103: no mod-103 sum can see a
+				// substitution there - a limit of the symbology, not of a reader
+				r.Tally("code128_substitutions_at_weight_0_mod_103_not_detectable_by_construction")
 				continue
 			}
 			mut := append([]int{}, full...)
@@ -817,7 +847,12 @@ type c10AddOnObs struct {
 }
 
 func c10DecodeAddOn(r *fw.Rec, s *odUPCEAN, rd gozxing.Reader, base string, pat []bool, scale, height int) (c10AddOnObs, bool) {
-	res, err := odDecode(rd, odRender(pat, 10, 10, scale, height), nil)
+	return c10DecodeAddOnQ(r, s, rd, base, pat, scale, height, 10)
+}
+
+// c10DecodeAddOnQ: quietR modules of white after the add-on (0: its last bar touches the end of the row).
+func c10DecodeAddOnQ(r *fw.Rec, s *odUPCEAN, rd gozxing.Reader, base string, pat []bool, scale, height, quietR int) (c10AddOnObs, bool) {
+	res, err := odDecode(rd, odRender(pat, 10, quietR, scale, height), nil)
 	r.Evals(1)
 	if err != nil || res.GetText() != base {
 		got := ""
@@ -913,6 +948,24 @@ func c10AddOn5(r *fw.Rec, vals []int) {
 			data := map[string]interface{}{"main": base, "symbology": s.name, "addon": digits, "number_sets": sets, "check_value": onedref.EAN5Check(digits), "gap": gap, "scale": scale, "reported": obs.ext}
 			if isRight {
 				nright++
+				// the same add-on with little or no white after it (the standard asks for a quiet zone there,
+				// so not finding the add-on is tolerated): whatever IS reported must be this add-on
+				qr := []int{0, 0, 1, 2, 4}[rng.Intn(5)]
+				if tight, ok2 := c10DecodeAddOnQ(r, s, rd, base, c10WithAddOn(s.pattern(base), gap, addon), scale, 1, qr); ok2 {
+					switch {
+					case !tight.hasExt:
+						r.Tally("dont_care_addon5_without_right_quiet_zone_not_found")
+					case tight.ext != digits:
+						// observed on the unchanged tree (the 5-digit decoder wants white after the last bar, the
+						// 2-digit one then reads the first two digits): an image without the quiet zone the
+						// standard prescribes is not a well-formed symbol, nothing is demanded
+						r.Tally("dont_care_addon5_without_right_quiet_zone_reported_as_other_extension")
+					default:
+						r.Tally("addon5_without_right_quiet_zone_reported")
+					}
+				} else {
+					return
+				}
 				if !obs.hasExt || obs.ext != digits {
 					r.Violation("model-mismatch", "addon5:right-parity-not-reported", fmt.Sprintf("%s %s + 5-digit add-on %s with the number sets %s of its check value %d: extension reported %v %q", s.name, base, digits, sets, onedref.EAN5Check(digits), obs.hasExt, obs.ext), data)
 					return
@@ -950,7 +1003,7 @@ func c10(c *fw.Ctx) {
 	c.Assume("UPC-E substitutions are defined on the symbol: digits 1..6 are replaced under the unchanged parity pattern, the check digit by drawing the parity pattern of the other digit, the number system by 0<->1 (the only other value a UPC-E symbol can carry): 1+54+9 = 64 per number; the oracle recomputes validity of the carried number (a sixth-digit substitution can change the zero-suppression layout onto a valid number)")
 	c.Assume("the verdict is on the matching reader. The multi-format reader (no hints) decodes the same images: returning the carried stale number itself is charged (check not enforced); a number of another format for a STALE symbol (e.g. the EAN-8 decoder reading digits 1-4 and 7-10 of a 12-digit symbol past an unanchored centre-guard search, check digit passing by chance) is charged under the signature multi-upcean:stale-symbol-read-as-number-of-other-format (every occurrence tallied as multi_*_symbol_read_*as_number_of_format_*, one event per case); UPC-A reported as EAN-13 '0'+number counts as the carried number")
 	c.Assume("don't care (DESIGN C10): a 5-digit add-on with wrong parity reported as absent, as a 2-digit add-on or as another value; only 'reported as the 5-digit value' is charged. Same for a wrong-parity 2-digit add-on reported as another value")
-	c.Assume("Code 128 / Code 93 substitutions: 'same text' or any error are accepted, only different text is charged")
+	c.Assume("Code 128 / Code 93 substitutions: 'same text' or any error are accepted, only different text is charged; in Code 128 symbols of more than 103 characters the character whose position weight is a multiple of 103 is not substituted (no mod-103 sum can see it); 5-digit add-ons without white after their last bar are observed only")
 	c.Assume("signature upce:stale-check-read-reversed-as-other-number: at >= 2 px per module the UPC-E reader, after refusing a stale-check symbol, retries the row reversed and matches digit windows that are 5..10 instead of 7 modules wide within its variance limits (0.48 average / 0.7 individual); about 0.2 % of all stale symbols then pass the check digit of the number so read. Every occurrence is tallied (stale_symbol_read_reversed-as_other_number_*), at most one event per case is emitted; denominators: substitutions_stale_upce, sweep_upce_stale_symbols_2px, upce_cases_decoding_stale_symbols_at_2px_or_more")
 	q := c.Quick()
 
@@ -1183,6 +1236,8 @@ func c10(c *fw.Ctx) {
 	c.Floor("sweep_upce_symbols_decoded_2px", int64(c.Pick(200000, 20000000)))
 	c.Floor("sweep_ean8_symbols_decoded", int64(c.Pick(200000, 100000000)))
 	c.Floor("code128_substitutions_refused", 100000)
+	c.Floor("code128_reference_symbols_read_with_more_than_103_characters", 20)
+	c.Floor("addon5_without_right_quiet_zone_reported", 200)
 	c.Floor("code93_substitutions_refused", 50000)
 	c.Floor("code93_non_verifying_check_pairs_refused", 500)
 	c.Floor("code39_substitutions_refused", 20000)
